@@ -122,6 +122,7 @@ theorem applyOpCore_trapOK (init : Nat → Disp) (hinit : ∀ s, init s ≠ .cat
     rw [redirOp_env]
     refine trapOK_congr init sh.env _ ?_ h
     simp only [Env.trapState, (execRedir_same _ _ _).2.2.1]
+  | shift => unfold applyOpCore; simp only []; split <;> exact h
   | pl => unfold applyOpCore; simp only []; split <;> exact h
   | cs => unfold applyOpCore; simp only []; split <;> exact h
   | hd => unfold applyOpCore; simp only []; split <;> exact h
